@@ -239,8 +239,10 @@ class Simulationarchive(Structure):
         if mode=='snapshot':
             if (sim.integrator=="mercurius" and sim.ri_mercurius.safe_mode == 1) or (sim.integrator=="whfast" and sim.ri_whfast.safe_mode == 1) or (sim.integrator=="saba" and sim.ri_saba.safe_mode == 1):
                 keep_unsynchronized = 0
-            sim.ri_whfast.keep_unsynchronized = keep_unsynchronized
-            sim.ri_saba.keep_unsynchronized = keep_unsynchronized
+            if sim.integrator=="whfast":
+                sim.ri_whfast.keep_unsynchronized = keep_unsynchronized
+            if sim.integrator=="saba": # SABA uses WHFast internally, which must not be asked to keep an unsynchronized state
+                sim.ri_saba.keep_unsynchronized = keep_unsynchronized
             sim.synchronize()
             return sim
         else:
@@ -248,8 +250,10 @@ class Simulationarchive(Structure):
                 keep_unsynchronized = 0
             if (sim.integrator=="mercurius" and sim.ri_mercurius.safe_mode == 1) or (sim.integrator=="whfast" and sim.ri_whfast.safe_mode == 1) or (sim.integrator=="saba" and sim.ri_saba.safe_mode == 1):
                 keep_unsynchronized = 0
-            sim.ri_whfast.keep_unsynchronized = keep_unsynchronized
-            sim.ri_saba.keep_unsynchronized = keep_unsynchronized
+            if sim.integrator=="whfast":
+                sim.ri_whfast.keep_unsynchronized = keep_unsynchronized
+            if sim.integrator=="saba": # SABA uses WHFast internally, which must not be asked to keep an unsynchronized state
+                sim.ri_saba.keep_unsynchronized = keep_unsynchronized
             exact_finish_time = 1 if mode=='exact' else 0
             sim.integrate(t,exact_finish_time=exact_finish_time)
                 
